@@ -340,7 +340,7 @@ func (c *userTypesCollector) collectUserTypesFromTypeConstraint(node internalSch
 	}
 
 	name := typ.Bytes().Unquote().String()
-	if name[0] == '@' {
+	if strings.HasPrefix(name, "@") {
 		c.addType(name)
 	}
 }
